@@ -36,7 +36,7 @@ def cases(tier, seed):
     R = random.Random("c02/%d" % seed)
     out = []
     combos = [(f, m) for f in tilegen.FMT_MODES for m in tilegen.FMT_MODES[f]]
-    n = 64 if tier == "quick" else 800
+    n = 64 if tier == "quick" else 1600
     for i in range(n):
         fmt, mode = combos[i % len(combos)]
         start = R.choice([1, 2, 2, 3] if tier == "quick" else [1, 2, 3, 3, 4])
